@@ -53,6 +53,7 @@ class _TextParser(HTMLParser):
 
   def __init__(self, paragraph: model.P, line_number: int) -> None:
     self.line_num: int = line_number
+    self.paragraph: model.P = paragraph
     self.parent: model.ContentElement = paragraph
     super().__init__()
 
@@ -78,7 +79,7 @@ class _TextParser(HTMLParser):
         return
 
       if color is None:
-        LOGGER.warning("Unknown color %s at line %s", attrs["color"], self.line_num)
+        LOGGER.warning("Unknown color %s at line %s", attr[1], self.line_num)
         return
 
       span.set_style(styles.StyleProperties.Color, color)
@@ -88,6 +89,10 @@ class _TextParser(HTMLParser):
       return
 
   def handle_endtag(self, tag):
+    if self.parent is self.paragraph:
+      LOGGER.warning("Unexpected end tag %s at line %s", tag, self.line_num)
+      return
+
     self.parent = self.parent.parent()
 
   def handle_data(self, data):
